@@ -138,16 +138,23 @@ def run_order(prog, tier, repo):
             res.ok(key + ':recheck', b.loc(), 'every path through the mutator ends in recheck')
         else:
             res.violation(key + ':recheck', b.loc(), f'{b.name} has a path that returns without rechecking: diagnostics go stale')
-        # paired maps: parsed_modules and global_cx are inserted / removed under the same keys
-        for kind in ('::insert', '::remove'):
-            pk = {_key(b, t[3][1]) for bi, t, f in _map_calls(b, (kind,)) if f == 'parsed_modules'}
-            gk = {_key(b, t[3][1]) for bi, t, f in _map_calls(b, (kind,)) if f == 'global_cx'}
+        # paired maps: a module enters / leaves all per-module maps together (the key-set inclusions the request API
+        # relies on); checked_modules is filled by recheck, so it only takes part in removals
+        groups = {'::insert': ('parsed_modules', 'global_cx', 'string_sources'),
+                  '::remove': ('parsed_modules', 'global_cx', 'string_sources', 'checked_modules')}
+        for kind, maps in groups.items():
+            keysets = {m: {_key(b, t[3][1]) for bi, t, f in _map_calls(b, (kind,)) if f == m} for m in maps}
             k2 = f'pair:{b.name}:{kind.strip(":")}'
-            if pk == gk:
-                res.ok(k2, b.loc(), f'parsed_modules and global_cx {kind.strip(":")} under the same keys ({len(pk)})')
+            nonempty = {m: ks for m, ks in keysets.items() if ks}
+            ref = keysets['parsed_modules']
+            bad = [m for m in maps if keysets[m] != ref]
+            if not bad:
+                res.ok(k2, b.loc(), f'{", ".join(maps)} are {kind.strip(":")}-ed under the same keys ({len(ref)})')
             else:
-                res.violation(k2, b.loc(), f'{b.name}: parsed_modules and global_cx are not {kind.strip(":")}-ed under the same '
-                              f'keys: a module can be checked against a signature set that misses (or still has) it')
+                res.violation(k2, b.loc(), f'{b.name}: {", ".join(bad)} {"is" if len(bad) == 1 else "are"} not '
+                              f'{kind.strip(":")}-ed under the same key(s) as parsed_modules: after this operation one module '
+                              f'map has an entry the others lack, so a module is checked against a signature set that '
+                              f'misses (or still has) it, or a request unwraps a lookup that now fails')
     return [res]
 
 
